@@ -13,9 +13,11 @@ parameter `env` of the translated methods; `EnvCodec env c err` says that this e
 (`create` sees the header's sender, exceptions mapped by `err`).  So the cache-invalidation logic of the setters, the
 lazy encode / decode of the getters, the length arithmetic and the layout of `bytes` (`Frame.encode`: start, LE16 length,
 four header bytes, kind, payload, BCC, end) are tied by translation; `C02.bytes_reflect_last_content`, `length_consistent`
-… (theorems about `Obj.run`) speak about the translated code through `Frame_step_sim` / `Frame_run_sim`.
-An instance after a RAISED exception is not represented by the translation (`Except`): the simulation is stated up to the
-first operation that raises.
+… (theorems about `Obj.run`) speak about the translated code through `Frame_step_sim` (here: ONE operation) and its
+lift to operation sequences `Frame_run_sim` in Props/TieFrameObjRun.lean (`bytes_reflect_last_content_code`,
+`length_consistent_code`, `getters_pure_code`, `F5_one_sided_fill_code`, `fresh_same_args_code`).
+An instance after a RAISED exception is not represented by the translation (`Except`): `Frame_step_sim` answers the mapped
+exception for a raising step, and `Frame_run_sim` is stated up to (and including) the first operation that raises.
 -/
 namespace PlumVerif.TieFrameObj
 open PlumVerif PlumVerif.Py PlumVerif.Obj
